@@ -1,7 +1,14 @@
 (* C13 — data buckets only ever hold arrays of the detector's shape and unit type.
    Only statements here; proofs live in Proofs/Containers*.v.  Gen_C13.src_tables is regenerated on
    every run from pyxel/data_structure/{array,photon,pixel,signal,image,phase}.py,
-   pyxel/detectors/detector.py, pyxel/detectors/mkid/mkid.py and the installed numpy. *)
+   pyxel/detectors/detector.py, pyxel/detectors/mkid/mkid.py and the installed numpy.
+
+   Round 2: the defects C13-F2a/b/c (Photon += / + and the detector's photon setter let unvalidated
+   arrays in), C13-F2d (ArrayBase += / + changed the stored array before rejecting the result) and
+   C13-F3a/b/c (asymmetric, raising, geometry-blind ==) are repaired in the code; the
+   former `_refuted` / `_partial` theorems are replaced by the full statements below.  The translator
+   still recognises the old shapes of that code and then emits tables for which `tables_ok` is false,
+   so a regression breaks C13_source_tables_ok and everything that depends on it. *)
 From Coq Require Import ZArith List Bool.
 From PyxelV Require Import Model.Containers Proofs.Containers Proofs.ContainersEq.
 From PyxelGen Require Import Gen_C13.
@@ -10,64 +17,52 @@ Import ListNotations.
 (* The source says what the property needs: every TYPE_LIST within the allowed element types
    (floating point; unsigned for image), every guard of ArrayBase._validate and of the two Photon
    setters present, negative photons clipped, float64 accepted by Pixel (its empty() stores zeros),
-   no raw detector setter for pixel/signal/image/phase. *)
+   no raw detector setter for ANY bucket, Photon.__iadd__ and Photon.__add__ store through the
+   setters on every branch, ArrayBase.__eq__ compares emptiness on both sides and Photon.__eq__
+   compares the geometry, every getter (and both __array__ methods) refuses an empty container,
+   empty() stores None (float zeros allowed for Pixel only), Detector.empty empties photon, signal,
+   image always and pixel at least under reset, MKID.empty zeroes the phase array under reset,
+   ArrayBase.__iadd__ / __add__ add on a copy (nothing is changed before the result is validated). *)
 Theorem C13_source_tables_ok : tables_ok src_tables = true.
 Proof. vm_compute. reflexivity. Qed.
 Print Assumptions C13_source_tables_ok.
 
+Definition ex_ok2d := mk_np [2; 3] F32 [1; 2; 3; 4; 5; 6]%Z.
+Definition ex_neg2d := mk_np [2; 3] F64 [(-1); 2; 3; 4; 5; 6]%Z.
+Definition ex_wrong := mk_np [3; 2] F64 [1; 2; 3; 4; 5; 6]%Z.
+Definition ex_3d_ok := mk_xr [0; 1; 2] (Some [400; 420]%Z) [2; 2; 3] F64 [1; 1; 1; 1; 1; 1; 2; 1; 1; 1; 1; 1]%Z.
+Definition ex_3d := mk_xr [0; 1; 2] (Some [400; 420]%Z) [2; 2; 3] F64 [1; 1; 1; 1; 1; 1; (-2); 1; 1; 1; 1; 1]%Z.
 (* ------------------------------------------------------------------ the invariant *)
 
-(* full statement: whatever the operation sequence, the invariant is kept *)
-Definition C13_inv_full : Prop :=
-  forall (ops : list op) (c : container), Inv c -> Inv (run src_tables c ops).
-
-(* refuted by the code as it is: `photon += a` on an EMPTY photon stores `a` as it is *)
-Definition w_photon := empty_container Photon 2 2.
-Definition w_bad := mk_np [3; 1] I16 [(-1); (-2); (-3)]%Z.
-
-Theorem C13_inv_refuted : ~ C13_inv_full.
-Proof. intro H. specialize (H [OIAdd w_bad] w_photon eq_refl). vm_compute in H. discriminate. Qed.
-Print Assumptions C13_inv_refuted.
-
-(* ... `photon += negative` on an initialised photon is not clipped *)
-Theorem C13_inv_refuted_negative_iadd :
-  exists c a, Inv c /\ c_content c <> None /\ ~ Inv (run src_tables c [OIAdd a]).
-Proof.
-  exists (mk_cont Photon 2 2 (Some (mk_np [2; 2] F64 [1; 1; 1; 1]%Z))), (mk_np [2; 2] F64 [(-5); 0; 0; 0]%Z).
-  repeat split; try (vm_compute; congruence).
-Qed.
-Print Assumptions C13_inv_refuted_negative_iadd.
-
-(* ... `detector.photon = other` copies the other container's array without validation *)
-Theorem C13_inv_refuted_detector_assign :
-  exists c o, Inv c /\ Inv o /\ c_kind o = Photon /\ ~ Inv (run src_tables c [ODAssign o]).
-Proof.
-  exists w_photon, (mk_cont Photon 3 3 (Some (mk_np [3; 3] F64 [1; 1; 1; 1; 1; 1; 1; 1; 1]%Z))).
-  repeat split; try (vm_compute; congruence).
-Qed.
-Print Assumptions C13_inv_refuted_detector_assign.
-
-(* strongest true restriction: ALL operation sequences that avoid those three places
-   (`offending`: += / + on an empty photon with an operand that is not itself a legal photon array,
-   += / + of an operand with a negative element on an initialised photon, detector.photon = a container
-   whose array is not legal for this detector): every intermediate state satisfies the invariant *)
-Theorem C13_inv_partial :
+(* ALL operation sequences (set, set3d, update, +=, +, empty, reads, ==, detector assignment,
+   detector.empty), all buckets, from every state that satisfies the invariant and whose stored array
+   is one its own setter accepts (`accepted`: what `self.array += x` relies on — true of the empty
+   container and preserved by every operation): every intermediate state and the final state satisfy
+   the invariant, and stay accepted.  No operation is excluded. *)
+Theorem C13_inv :
   forall (ops : list op) (c : container),
-    Inv c -> no_offending src_tables c ops = true ->
-    Forall Inv (states src_tables c ops) /\ Inv (run src_tables c ops).
+    Inv c -> accepted src_tables c = true ->
+    Forall Inv (states src_tables c ops) /\ Inv (run src_tables c ops)
+    /\ accepted src_tables (run src_tables c ops) = true.
 Proof.
-  intros ops c Hc Hn. split.
-  - apply states_inv_partial; [exact C13_source_tables_ok | exact Hc | exact Hn].
-  - apply run_inv_partial; [exact C13_source_tables_ok | exact Hc | exact Hn].
+  intros ops c Hc Ha. split; [|split].
+  - apply states_inv; [exact C13_source_tables_ok | exact Hc | exact Ha].
+  - apply run_inv; [exact C13_source_tables_ok | exact Hc | exact Ha].
+  - apply run_accepted; [exact C13_source_tables_ok | exact Ha].
 Qed.
-Print Assumptions C13_inv_partial.
+Print Assumptions C13_inv.
 
-(* pixel, signal, image, phase: the FULL invariant, all operation sequences, no restriction *)
-Theorem C13_inv_arraybase :
-  forall (ops : list op) (c : container),
-    c_kind c <> Photon -> Inv c -> Forall Inv (states src_tables c ops) /\ Inv (run src_tables c ops).
-Proof. intros. apply run_inv_base; [exact C13_source_tables_ok | assumption | assumption]. Qed.
-Print Assumptions C13_inv_arraybase.
+(* the containers of a fresh detector: any kind, any geometry, any operation sequence *)
+Theorem C13_inv_from_empty :
+  forall (k : ckind) (r c : nat) (ops : list op),
+    Forall Inv (states src_tables (empty_container k r c) ops)
+    /\ Inv (run src_tables (empty_container k r c) ops).
+Proof.
+  intros k r c ops.
+  destruct (C13_inv ops (empty_container k r c) (inv_empty k r c) (accepted_empty src_tables k r c)) as [H1 [H2 _]].
+  split; assumption.
+Qed.
+Print Assumptions C13_inv_from_empty.
 
 (* what the invariant says, in words *)
 Theorem C13_inv_meaning :
@@ -100,99 +95,140 @@ Theorem C13_failed_assign_preserves :
 Proof. intros c0 ops o c' e H0 H. exact (failed_op_preserves src_tables C13_source_tables_ok c0 ops o c' e H0 H). Qed.
 Print Assumptions C13_failed_assign_preserves.
 
+(* reading an empty container raises — through `.array`, `.array_3d` and `np.asarray(container)`; proved from the
+   regenerated guard tables of the five getters *)
 Theorem C13_read_empty_raises :
   forall c, c_content c = None ->
-    step src_tables c ORead = (c, Raise ValueError)
-    /\ (c_kind c = Photon -> step src_tables c ORead3D = (c, Raise ValueError)).
-Proof. intros c H. split; [apply read_empty_raises | intro; apply read3d_empty_raises]; assumption. Qed.
+    (exists e, step src_tables c ORead = (c, Raise e))
+    /\ (c_kind c = Photon -> exists e, step src_tables c ORead3D = (c, Raise e))
+    /\ (exists e, step src_tables c OAsArray = (c, Raise e)).
+Proof.
+  intros c H. split; [|split].
+  - apply read_empty_raises; [exact C13_source_tables_ok | exact H].
+  - intro Hk. apply read3d_empty_raises; [exact C13_source_tables_ok | exact Hk | exact H].
+  - apply asarray_empty_raises; [exact C13_source_tables_ok | exact H].
+Qed.
 Print Assumptions C13_read_empty_raises.
+
+(* ... and, as the source stands, with the explanatory ValueError (TypeError from ArrayBase.__array__) *)
+Example C13_ex_read_empty_classes :
+  step src_tables (empty_container Signal 2 2) ORead = (empty_container Signal 2 2, Raise ValueError)
+  /\ step src_tables (empty_container Photon 2 2) ORead = (empty_container Photon 2 2, Raise ValueError)
+  /\ step src_tables (empty_container Photon 2 2) ORead3D = (empty_container Photon 2 2, Raise ValueError)
+  /\ step src_tables (empty_container Photon 2 2) OAsArray = (empty_container Photon 2 2, Raise ValueError)
+  /\ step src_tables (empty_container Image 2 2) OAsArray = (empty_container Image 2 2, Raise TypeError).
+Proof. vm_compute. repeat split; reflexivity. Qed.
 
 (* never stale data: a read that returns, returns the stored array and changes nothing *)
 Theorem C13_read_returns_content :
-  forall c c' a, (step src_tables c ORead = (c', RetArr a) \/ step src_tables c ORead3D = (c', RetArr a)) ->
+  forall c c' a, (step src_tables c ORead = (c', RetArr a) \/ step src_tables c ORead3D = (c', RetArr a)
+                  \/ step src_tables c OAsArray = (c', RetArr a)) ->
     c' = c /\ c_content c = Some a.
 Proof. intros. eapply read_returns_content; eauto. Qed.
 Print Assumptions C13_read_returns_content.
 
+(* resets leave nothing behind: after empty(), update(None) (ArrayBase classes) and detector.empty(reset=True) the
+   container is empty — float zeros for Pixel, zeros (NaN where it was not finite) for the MKID phase —
+   whatever it held before; proved from the regenerated tables of empty()/update()/Detector.empty/MKID.empty *)
+Theorem C13_reset_leaves_nothing :
+  forall c o, (o = OEmpty \/ o = OUpdate None \/ o = ODEmpty true) -> (o = OUpdate None -> c_kind c <> Photon) ->
+    reset_ok (c_kind c) o (c_content c) (c_content (fst (step src_tables c o))) = true.
+Proof. exact (reset_leaves_nothing src_tables C13_source_tables_ok). Qed.
+Print Assumptions C13_reset_leaves_nothing.
+
+Example C13_ex_reset :
+  c_content (fst (step src_tables (mk_cont Photon 2 3 (Some ex_3d_ok)) OEmpty)) = None
+  /\ c_content (fst (step src_tables (mk_cont Pixel 1 2 (Some (mk_np [1; 2] F32 [5; 6]%Z))) (ODEmpty true)))
+     = Some (mk_np [1; 2] F64 [0; 0]%Z)
+  /\ c_content (fst (step src_tables (mk_cont Pixel 1 2 (Some (mk_np [1; 2] F32 [5; 6]%Z))) (ODEmpty false)))
+     = Some (mk_np [1; 2] F32 [5; 6]%Z)
+  /\ c_content (fst (step src_tables (mk_cont Phase 1 2 (Some (mk_np [1; 2] F32 [5; zPInf]%Z))) (ODEmpty true)))
+     = Some (mk_np [1; 2] F32 [0; zNaN]%Z)
+  /\ reset_ok Signal OEmpty None (Some (mk_np [1; 2] F32 [5; 6]%Z)) = false.
+Proof. vm_compute. repeat split; reflexivity. Qed.
+
 (* ------------------------------------------------------------------ equality *)
 
-Definition C13_eq_spec_full : Prop :=
+(* for ALL pairs of containers satisfying the invariant (NaN-free contents: numpy and xarray disagree
+   on NaN == NaN): `==` returns — never raises — exactly "same kind, same geometry, both empty or
+   equal arrays" *)
+Theorem C13_eq_spec :
   forall a b, Inv a -> Inv b -> content_nan_free a = true -> content_nan_free b = true ->
-    eq_res a b = RetBool (eq_spec a b).
+    eq_res src_tables a b = RetBool (eq_spec a b).
+Proof. exact (eq_res_spec src_tables C13_source_tables_ok). Qed.
+Print Assumptions C13_eq_spec.
 
-Definition C13_eq_sym_full : Prop :=
+Theorem C13_eq_sym :
   forall a b, Inv a -> Inv b -> content_nan_free a = true -> content_nan_free b = true ->
-    eq_res a b = eq_res b a.
+    eq_res src_tables a b = eq_res src_tables b a.
+Proof. exact (eq_res_sym src_tables C13_source_tables_ok). Qed.
+Print Assumptions C13_eq_sym.
 
-Definition w_sig_empty := empty_container Signal 2 2.
-Definition w_sig_init := mk_cont Signal 2 2 (Some (mk_np [2; 2] F64 [1; 2; 3; 4]%Z)).
-
-(* empty == initialised is True; initialised == empty raises *)
-Theorem C13_eq_spec_refuted :
-  ~ C13_eq_spec_full
-  /\ eq_res w_sig_empty w_sig_init = RetBool true /\ eq_spec w_sig_empty w_sig_init = false
-  /\ eq_res w_sig_init w_sig_empty = Raise ValueError.
-Proof.
-  split; [|vm_compute; auto].
-  intro H. specialize (H w_sig_empty w_sig_init eq_refl eq_refl eq_refl eq_refl). vm_compute in H. discriminate.
-Qed.
-Print Assumptions C13_eq_spec_refuted.
-
-Theorem C13_eq_sym_refuted : ~ C13_eq_sym_full.
-Proof.
-  intro H. specialize (H w_sig_empty w_sig_init eq_refl eq_refl eq_refl eq_refl). vm_compute in H. discriminate.
-Qed.
-Print Assumptions C13_eq_sym_refuted.
-
-(* two empty photons of different geometry compare equal *)
-Theorem C13_eq_spec_refuted_photon_geometry :
-  eq_res (empty_container Photon 2 3) (empty_container Photon 3 3) = RetBool true
-  /\ eq_spec (empty_container Photon 2 3) (empty_container Photon 3 3) = false.
-Proof. vm_compute. auto. Qed.
-Print Assumptions C13_eq_spec_refuted_photon_geometry.
-
-(* strongest true restriction: both operands initialised (and satisfying the invariant): `==` is
-   exactly "same kind, same geometry, equal arrays" and is symmetric; both empty: exact as well except
-   for photons of different geometry *)
-Theorem C13_eq_spec_partial :
-  forall a b x y, Inv a -> Inv b -> c_content a = Some x -> c_content b = Some y ->
-    nan_free (a_data x) = true -> nan_free (a_data y) = true ->
-    eq_res a b = RetBool (eq_spec a b) /\ eq_res a b = eq_res b a.
-Proof.
-  intros. split; [eapply eq_res_spec_initialised | eapply eq_res_sym_initialised]; eauto.
-Qed.
-Print Assumptions C13_eq_spec_partial.
-
-Theorem C13_eq_spec_partial_empty :
-  forall a b, c_content a = None -> c_content b = None ->
-    (c_kind a = Photon -> c_kind b = Photon -> c_rows a = c_rows b /\ c_cols a = c_cols b) ->
-    eq_res a b = RetBool (eq_spec a b).
-Proof. exact eq_res_spec_both_empty. Qed.
-Print Assumptions C13_eq_spec_partial_empty.
+(* with an empty operand on either side no hypothesis is needed at all *)
+Theorem C13_eq_spec_empty_operand :
+  forall a b, c_content a = None \/ c_content b = None -> eq_res src_tables a b = RetBool (eq_spec a b).
+Proof. exact (eq_res_spec_some_empty src_tables C13_source_tables_ok). Qed.
+Print Assumptions C13_eq_spec_empty_operand.
 
 Theorem C13_eq_spec_symmetric : forall a b, eq_spec a b = eq_spec b a.
 Proof. exact eq_spec_sym. Qed.
 Print Assumptions C13_eq_spec_symmetric.
 
-(* ------------------------------------------------------------------ non-vacuity *)
+(* ------------------------------------------------------------------ non-vacuity and regression witnesses *)
 
-Definition ex_ok2d := mk_np [2; 3] F32 [1; 2; 3; 4; 5; 6]%Z.
-Definition ex_neg2d := mk_np [2; 3] F64 [(-1); 2; 3; 4; 5; 6]%Z.
-Definition ex_wrong := mk_np [3; 2] F64 [1; 2; 3; 4; 5; 6]%Z.
-Definition ex_3d := mk_xr [0; 1; 2] (Some [400; 420]%Z) [2; 2; 3] F64 [1; 1; 1; 1; 1; 1; (-2); 1; 1; 1; 1; 1]%Z.
 Definition ex_ops_photon : list op :=
-  [OIAdd ex_ok2d; ORead; OSet ex_neg2d; OSet ex_wrong; OIAdd ex_ok2d; OEmpty; OSet3D ex_3d; ORead3D;
-   OIAdd (mk_xr [0; 1; 2] (Some [400; 420]%Z) [2; 2; 3] F64 [1; 1; 1; 1; 1; 1; 1; 1; 1; 1; 1; 1]%Z);
+  [OIAdd ex_ok2d; ORead; OSet ex_neg2d; OSet ex_wrong; OIAdd ex_neg2d; OAsArray; OEmpty; OSet3D ex_3d; ORead3D;
+   OIAdd (mk_xr [0; 1; 2] (Some [400; 420]%Z) [2; 2; 3] F64 [1; 1; 1; 1; 1; 1; 1; 1; 1; 1; 1; (-9)]%Z);
    ODAssign (mk_cont Photon 2 3 (Some ex_ok2d)); ODEmpty true].
 
-(* a long photon history that meets the hypothesis of C13_inv_partial, changes the state several
-   times, contains rejected operations and clipping *)
-Example C13_ex_partial_hypothesis :
-  no_offending src_tables (empty_container Photon 2 3) ex_ops_photon = true
-  /\ run src_tables (empty_container Photon 2 3) [OSet ex_wrong] = empty_container Photon 2 3
+(* the inputs that refuted the full statements before the repairs (C13-F2a, F2b, F2c): now rejected or
+   clipped — kept here so that a regression is caught by the proof leg as well *)
+Definition w_photon := empty_container Photon 2 2.
+Definition w_bad := mk_np [3; 1] I16 [(-1); (-2); (-3)]%Z.
+
+Example C13_ex_former_witnesses :
+  step src_tables w_photon (OIAdd w_bad) = (w_photon, Raise ValueError)
+  /\ step src_tables w_photon (OAdd w_bad) = (w_photon, Raise ValueError)
+  /\ c_content (run src_tables (mk_cont Photon 2 2 (Some (mk_np [2; 2] F64 [1; 1; 1; 1]%Z)))
+                    [OIAdd (mk_np [2; 2] F64 [(-5); 0; 0; 0]%Z)])
+     = Some (mk_np [2; 2] F64 [0; 1; 1; 1]%Z)
+  /\ step src_tables w_photon (ODAssign (mk_cont Photon 3 3 (Some (mk_np [3; 3] F64 [1; 1; 1; 1; 1; 1; 1; 1; 1]%Z))))
+     = (w_photon, Raise ValueError)
+  /\ step src_tables w_photon (ODAssign (mk_cont Image 2 2 (Some (mk_np [2; 2] U16 [1; 1; 1; 1]%Z))))
+     = (w_photon, Raise ValueError).
+Proof. vm_compute. repeat split; reflexivity. Qed.
+
+(* C13-F2d: `pixel += DataArray` raises and (now) changes nothing; with the former in-place shape of the code the
+   same step raised AFTER the stored array had been modified *)
+Definition w_pix := mk_cont Pixel 2 3 (Some (mk_np [2; 3] F64 [1; 1; 1; 1; 1; 1]%Z)).
+Definition w_da := mk_xr [1; 2] None [2; 3] F64 [5; 5; 5; 5; 5; 5]%Z.
+
+Example C13_ex_former_witness_iadd_dataarray :
+  step src_tables w_pix (OIAdd w_da) = (w_pix, Raise TypeError)
+  /\ base_iadd src_tables BIInPlace w_pix w_da
+     = (mk_cont Pixel 2 3 (Some (mk_np [2; 3] F64 [6; 6; 6; 6; 6; 6]%Z)), Raise TypeError).
+Proof. vm_compute. split; reflexivity. Qed.
+
+(* a long photon history: accepted and rejected operations, clipping on assignment AND on +=, 2-D and 3-D *)
+Example C13_ex_history :
+  run src_tables (empty_container Photon 2 3) [OSet ex_wrong] = empty_container Photon 2 3
   /\ c_content (run src_tables (empty_container Photon 2 3) [OSet ex_neg2d])
-     = Some (mk_np [2; 3] F64 [0; 2; 3; 4; 5; 6]%Z).
-Proof. vm_compute. auto. Qed.
+     = Some (mk_np [2; 3] F64 [0; 2; 3; 4; 5; 6]%Z)
+  /\ c_content (run src_tables (empty_container Photon 2 3) [OIAdd ex_ok2d; OIAdd ex_neg2d])
+     = Some (mk_np [2; 3] F32 [0; 4; 6; 8; 10; 12]%Z)
+  /\ map (fun c => is_none (c_content c)) (states src_tables (empty_container Photon 2 3) ex_ops_photon)
+     = [false; false; false; false; false; false; true; false; false; false; false; true].
+Proof. vm_compute. repeat split; reflexivity. Qed.
+
+(* the hypotheses of C13_inv are met by non-empty states of every kind (and `accepted` is not implied by the
+   invariant alone only through the TYPE_LIST: it says the setter would take the array again) *)
+Example C13_ex_inv_hypotheses :
+  Inv (mk_cont Photon 2 3 (Some ex_ok2d)) /\ accepted src_tables (mk_cont Photon 2 3 (Some ex_ok2d)) = true
+  /\ Inv (mk_cont Photon 2 3 (Some ex_3d_ok)) /\ accepted src_tables (mk_cont Photon 2 3 (Some ex_3d_ok)) = true
+  /\ Inv (mk_cont Image 1 2 (Some (mk_np [1; 2] U8 [250; 3]%Z)))
+  /\ accepted src_tables (mk_cont Image 1 2 (Some (mk_np [1; 2] U8 [250; 3]%Z))) = true
+  /\ accepted src_tables (mk_cont Photon 2 3 (Some ex_wrong)) = false.
+Proof. vm_compute. repeat split; reflexivity. Qed.
 
 (* a rejected operation after a non-empty history (hypothesis of C13_failed_assign_preserves) *)
 Example C13_ex_failed_assign :
@@ -200,11 +236,18 @@ Example C13_ex_failed_assign :
                     (OIAdd (mk_np [2; 3] I8 [1; 1; 1; 1; 1; 1]%Z)) = (c', Raise e).
 Proof. eexists. eexists. vm_compute. reflexivity. Qed.
 
-(* initialised operands: equal, different values, different geometry *)
+(* equality: the former refutation witnesses (C13-F3a, F3b, F3c) and ordinary cases *)
+Definition w_sig_empty := empty_container Signal 2 2.
+Definition w_sig_init := mk_cont Signal 2 2 (Some (mk_np [2; 2] F64 [1; 2; 3; 4]%Z)).
+
 Example C13_ex_eq :
-  eq_res w_sig_init w_sig_init = RetBool true
-  /\ eq_res w_sig_init (mk_cont Signal 2 2 (Some (mk_np [2; 2] F32 [1; 2; 3; 5]%Z))) = RetBool false
-  /\ eq_res (mk_cont Photon 2 3 (Some ex_ok2d)) (mk_cont Photon 2 3 (Some (mk_np [2; 3] F64 [1; 2; 3; 4; 5; 6]%Z)))
+  eq_res src_tables w_sig_empty w_sig_init = RetBool false
+  /\ eq_res src_tables w_sig_init w_sig_empty = RetBool false
+  /\ eq_res src_tables (empty_container Photon 2 3) (empty_container Photon 3 3) = RetBool false
+  /\ eq_res src_tables (empty_container Photon 2 3) (empty_container Photon 2 3) = RetBool true
+  /\ eq_res src_tables w_sig_init w_sig_init = RetBool true
+  /\ eq_res src_tables w_sig_init (mk_cont Signal 2 2 (Some (mk_np [2; 2] F32 [1; 2; 3; 5]%Z))) = RetBool false
+  /\ eq_res src_tables (mk_cont Photon 2 3 (Some ex_ok2d)) (mk_cont Photon 2 3 (Some (mk_np [2; 3] F64 [1; 2; 3; 4; 5; 6]%Z)))
      = RetBool true
   /\ Inv w_sig_init /\ inv_b (mk_cont Photon 2 3 (Some ex_3d)) = false.
 Proof. vm_compute. repeat split; reflexivity. Qed.
